@@ -412,7 +412,7 @@ func classify(cs []*ctxSpec, sni string, protos []string, got int) string {
 
 // ---------------------------------------------------------------------------------------------
 
-var c13Header = inlineGen(genTLSTokens) + "From MV Require Import Model.TLSSelect.\nFrom Coq Require Import List String NArith.\nImport ListNotations.\nOpen Scope string_scope.\n"
+var c13Header = inlineGen(genTLSTokens) + "From MV Require Import Model.TLSSelect Model.TLSResume.\nFrom Coq Require Import List String NArith.\nImport ListNotations.\nOpen Scope string_scope.\n"
 
 func coqStrs(xs []string) string {
 	var o []string
@@ -700,6 +700,7 @@ func emitHandshakeResults(run *Run, res []hsResult) {
 		"upd":  {"upd_case", "upd_mismatches tls_manager_cached"},
 		"sds":  {"sds_case", "sds_mismatches sds_update_always_installs"},
 		"file": {"file_case", "file_mismatches tls_ca_pool_cached"},
+		"res":  {"res_case", "res_mismatches tls_resume_verifies"},
 	}
 	for _, h := range res {
 		if h.Kind == "skip" { // recorded in the distribution only (plus an additional finder verdict, if any)
@@ -723,7 +724,7 @@ func emitHandshakeResults(run *Run, res []hsResult) {
 			run.Sum.Samples = append(run.Sum.Samples, h.Rep)
 		}
 	}
-	for _, k := range []string{"sel", "auth", "up", "insp", "upd", "sds", "file"} {
+	for _, k := range []string{"sel", "auth", "up", "insp", "upd", "sds", "file", "res"} {
 		if shards[k] != nil {
 			shards[k].Close()
 		}
@@ -1221,6 +1222,7 @@ func runHandshakes(run *Run, right, other *authority, ls []*listenerUnderTest, v
 	out = append(out, runSDSHistories(run, right, other, ver, maxVer)...)
 	// ---- B7: file-backed material over histories of configuration applications ----
 	out = append(out, runFileHistories(run, right, other, ver, maxVer)...)
+	out = append(out, runResumeHistories(run, right, other, ver, maxVer)...)
 	return out
 }
 
